@@ -189,6 +189,14 @@ theorem ev_slit_name {F ρ w name fields fs w'} (hf : EvFS F ρ w fields (.ok fs
   rw [evalG.eq_def]; simp only [hm k hk', slitValue]
   cases F.structFields name <;> rfl
 
+theorem ev_slit_struct {F ρ w name tfs fields fs w'} (hf : EvFS F ρ w fields (.ok fs w')) :
+    EvS F ρ w (.slit (.struct name tfs) fields) (.ok (slitValue F name fs) w') := by
+  obtain ⟨m, hm⟩ := hf
+  refine ⟨m + 1, fun k hk => ?_⟩
+  obtain ⟨k, rfl, hk'⟩ := succ_of_le hk
+  rw [evalG.eq_def]; simp only [hm k hk', slitValue]
+  cases F.structFields name <;> rfl
+
 theorem ev_field_struct {F ρ w f ty obj n fs v w'} (h : EvS F ρ w obj (.ok (.struct n fs) w'))
     (hl : lookupG fs f = some v) : EvS F ρ w (.field f ty obj) (.ok v w') := by
   obtain ⟨m, hm⟩ := h
